@@ -5,7 +5,11 @@ Local Open Scope N_scope.
 (* The static round-trip discipline is sound, for ALL programs of the IR, all version triples, all
    header-string oracles: a program accepted by [chk] from the agreed set A, run in write mode on any
    state, then in read mode on any state that agrees on A and holds the produced bytes (followed by
-   anything), consumes exactly those bytes without fault and ends agreeing on the resulting set. *)
+   anything), consumes exactly those bytes without fault and ends agreeing on the resulting set.
+   [rt_ok] quantifies over writers that finish with the model-only flag [warn] down: the flag goes up
+   exactly when an inline string of 2049 bytes or more is written by a stream below 20.1.0.3, which
+   NiStringRef::Read cannot take back (it keeps at most 2048 bytes). An object obtained by reading never
+   holds such a string. *)
 Theorem C01_chk_sound : forall v hs s A A', chk v s A = Some A' -> rt_ok v hs s A A'.
 Proof. exact chk_sound. Qed.
 Print Assumptions C01_chk_sound.
@@ -14,7 +18,7 @@ Print Assumptions C01_chk_sound.
    model): whatever object is written, a freshly constructed object reads the bytes back exactly. *)
 Theorem C01_block_round_trip : forall v hs b,
   chk_block v b = true ->
-  forall obj sw', exec Wr v hs (block_prog b) obj = Ok sw' ->
+  forall obj sw', exec Wr v hs (block_prog b) obj = Ok sw' -> warn sw' = false ->
   exists bytes A', out sw' = rev bytes ++ out obj /\
     forall rest, exists sr', exec Rd v hs (block_prog b) (empty_state (bytes ++ rest)) = Ok sr' /\
                              inp sr' = rest /\ eof sr' = false /\ agree A' sw' sr'.
@@ -29,6 +33,13 @@ Eval vm_compute in C01_proved_ids.
 Definition C01_proved_per_version : list nat :=
   map (fun v => length (filter (fun x => chk_block v (snd x)) IRCur.block_table)) supported_versions.
 Eval vm_compute in C01_proved_per_version.
+
+(* the flag hypothesis is satisfiable and necessary: a short inline name passes, a 2049-byte one raises it *)
+Example C01_warn_down_and_up :
+  let prog := SStrRef 7 8 [] in let v := mkVer 335544325 11 11 in
+  (forall sw', exec Wr v (fun _ => false) prog (set_blob (empty_state []) (enc_key 7 []) [65; 66]) = Ok sw' -> warn sw' = false) /\
+  (forall sw', exec Wr v (fun _ => false) prog (set_blob (empty_state []) (enc_key 7 []) (repeat 65 2049)) = Ok sw' -> warn sw' = true).
+Proof. split; intros sw' H; vm_compute in H; injection H as <-; reflexivity. Qed.
 
 (* non-vacuity: a count that is used before it is transferred is rejected; the accepted order passes *)
 Example C01_check_discriminates :
